@@ -277,7 +277,7 @@ func c04FrontEnds(inner mc.Scenario) mc.Scenario {
 func init() {
 	Register(&Prop{
 		ID:    "C04",
-		Rule:  "decision table through the core space: one execution = one (context skeleton {top, struct field, slice element, behind pointer, struct in slice, pointer to struct, nested struct}, mode, ≤2 focus units over Required × Default{none, passing, failing} × tests × NotNil × the full input alphabet {valid, missing key, nil, \"\", spaces, tab/newline, NBSP, alternative representation, present-but-falsy 0/false/zero time/\"0\", failing, uncoercible} (Parse) / {valid, zero, failing} + {nil slice, empty slice, one element} + {nil pointer} (Validate)); plus typed-map inputs with missing keys; plus the record Struct{s, p: Ptr(Struct{s4,i4}), q: Ptr(Int), n: Struct{s2}} with ≤2 focus units over Required × tests × {valid, missing, nil, empty, failing, uncoercible} rendered through all seven front ends (untagged and source-tagged destination), each compared with the documented semantics and with the Go-map rendering; non-trivial = deviating case; distinct = distinct (skeleton, mode, required issues, test-run counts)",
+		Rule:  "decision table through the core space: one execution = one (context skeleton {top, struct field, slice element, behind pointer, struct in slice, pointer to struct, nested struct}, mode, ≤2 focus units over Required × Default{none, passing, failing} × tests × NotNil × the full input alphabet {valid, missing key, nil, \"\", spaces, tab/newline, NBSP, alternative representation, present-but-falsy 0/false/zero time/\"0\", failing, uncoercible} (Parse) / {valid, zero, failing} + {nil slice, empty slice, one element} + {nil pointer} (Validate)); plus typed-map inputs with missing keys; plus every single-unit case again with every node configured only after the schema tree was composed; plus the record Struct{s, p: Ptr(Struct{s4,i4}), q: Ptr(Int), n: Struct{s2}} with ≤2 focus units over Required × tests × {valid, missing, nil, empty, failing, uncoercible} rendered through all eight front ends (untagged and source-tagged destination), each compared with the documented semantics and with the Go-map rendering; non-trivial = deviating case; distinct = distinct (skeleton, mode, required issues, test-run counts)",
 		Floor: 50,
 		Bound: func(tier string) string { return "k=2 focus units over the full (thorough) input alphabets in both tiers, 14 context skeletons, all visit orders" },
 		Assumptions: []string{
@@ -294,6 +294,8 @@ func init() {
 				items = append(items, it)
 			}
 			items = append(items, Item{Name: "typed-maps", MaxDevs: -1, Run: c04TypedMapScenario})
+			// Required / NotNil / Default applied to a node after it was handed to its parent's constructor
+			items = append(items, lateConfigItems(tier, c04Scenario, nil)...)
 			// the same table through every front end, on the record with optional parts behind pointers:
 			// what "absent" means for JSON, form, query and environment input (a missing parameter reads as "")
 			pf := recordFieldsPtr()
